@@ -554,3 +554,57 @@ def rule_x7(P, tables):
         if not ok:
             findings.append(F("X7", f"X7|{k[0]}|{k[1]}", f"unaudited unsafe block in {k[0]}::{k[1]} (x{n}): memory unsafety turns malformed input into undefined behaviour instead of a reported error", f"{k[0]}::{k[1]}"))
     return findings, obl, {"unsafe_blocks": sum(counts.values())}
+
+
+# ---------------------------------------------------------------------------------------------- X8 no input parsing on the main thread after source construction
+import re as _re
+
+_IO_PATTERNS = [
+    _re.compile(r"^std::fs::"), _re.compile(r"^std::io::Read::read_to"),
+    _re.compile(r"^norad::.*::(load|load_[a-z_]+|from_file|from_reader|from_str)$"),
+    _re.compile(r"^plist::.*(from_file|from_reader|from_bytes|from_reader_xml)$"),
+    _re.compile(r"^(serde_yaml|serde_json)::de::from_"), _re.compile(r"^bincode::deserialize"),
+    _re.compile(r"^quick_xml::reader::"),
+    _re.compile(r"^glyphs_reader::font::\{impl#\d+\}::(load|load_from_string|load_package|load_raw)$"),
+    _re.compile(r"^glyphs_reader::plist::\{impl#\d+\}::parse$"),
+    _re.compile(r"^fea_rs::parse::(parse_root|parse_string|parse_root_file)"), _re.compile(r"^fea_rs::parse::context::\{impl#\d+\}::parse"),
+]
+
+
+def is_input_io(target):
+    return any(p.search(target) for p in _IO_PATTERNS)
+
+
+def rule_x8(P, tables):
+    """Jobs parse and interpret input under catch_unwind; the main thread may do so only while constructing the source.
+    After that (Workload::new, Source::create_*_work, handle_success) it must not read or parse input files, except on the
+    audited restore path."""
+    findings, obl = [], []
+    anyexec = find_any_work_exec(P)
+
+    def skip(a, b):
+        return b == anyexec or P.is_work_exec_impl(b)
+
+    roots = [r for r in ("fontc::workload::{impl#0}::new", "fontc::workload::{impl#0}::handle_success", "fontc::workload::{impl#0}::exec") if r in P.bodies]
+    if len(roots) != 3:
+        raise E4Error("X8: scheduler anchors not found")
+    par = P.reach_with_parents(roots, skip)
+    allowed = {e["fn"]: e for e in tables.get("e4_recursion", {}).get("main_thread_io_allowed", [])}
+    from common import norm_fn
+    n = 0
+    for fn in sorted(par):
+        if fn not in P.bodies:
+            continue
+        io = sorted({t for s in P.iter_sites(fn) if s["kind"] in ("call", "fnref") for t in s["targets"] if is_input_io(t)})
+        if not io:
+            continue
+        n += 1
+        e = allowed.get(norm_fn(fn))
+        if e is None and P.bodies[fn].get("trait_item") in ("fontir::orchestration::Persistable::read", "fontir::orchestration::PersistentStorage::reader"):
+            e = {"reason": "restore path of ContextItem/ContextMap::get (confined by C14 rule P4)"}
+        ok = e is not None
+        obl.append({"rule": "X8", "inst": f"{fn} reads/parses input on the main thread ({io[0]})" + (f": allowed ({e['reason'][:60]})" if ok else ""), "ok": ok})
+        if not ok:
+            findings.append(F("X8", f"X8|{norm_fn(fn)}", f"{fn} reads or parses input ({io[:2]}) on the main thread after the source was constructed (path: {' -> '.join(x.split('::', 1)[-1] for x in P.path_to(par, fn)[-4:])}): a malformed file makes it panic outside catch_unwind and kills the process instead of producing a reported error; do this inside a job's exec or while constructing the source",
+                              P.body_file_line(fn)))
+    return findings, obl, {"main_thread_io_functions": n}
